@@ -206,6 +206,9 @@ func CheckRun(sc *Scenario, o *Outcome) ([]Diff, *RefInfo) {
 		case has && isPoison(a):
 			ds = append(ds, Diff{"C01", "poison", fmt.Sprintf("hop TTL %d carries poison address %s (a must-reject packet was accepted)", h.TTL, a)})
 		case has && !r.Present:
+			if h.IsDest {
+				ds = append(ds, Diff{"C04", "dest-flag-unproven", fmt.Sprintf("hop TTL %d (%s) is marked as the destination although no reply in the form that proves arrival for this protocol was read for it", h.TTL, a)})
+			}
 			ds = append(ds, Diff{"C01", "unbacked-hop", fmt.Sprintf("hop TTL %d = %s is not backed by any genuine reply returned by the capture handle", h.TTL, a)})
 		case !has && r.Present:
 			ds = append(ds, Diff{"C02", "missing-hop", fmt.Sprintf("hop TTL %d empty but genuine reply #%d from %s was read at %v", r.TTL, r.TagID, r.Addr, r.ReadAt)})
